@@ -598,6 +598,13 @@ func cmdCheck(args []string) int {
 				vacuous = fmt.Sprintf("vacuous exploration: operation kind %q never succeeded", k)
 			}
 		}
+		// and no operation kind of the honest alphabet may be offered without ever succeeding (adversarial kinds,
+		// malformed twins and deliberately failing operations are named adv-*, *-bad*, *-fail)
+		for k, n := range merged.FailByKind {
+			if n > 0 && merged.OKByKind[k] == 0 && !strings.HasPrefix(k, "adv-") && !strings.Contains(k, "-bad") && !strings.HasSuffix(k, "-fail") {
+				vacuous = fmt.Sprintf("vacuous exploration: operation kind %q was offered %d times and never succeeded", k, n)
+			}
+		}
 	}
 
 	// evidence
@@ -660,16 +667,20 @@ func cmdCheck(args []string) int {
 	}
 	fmt.Printf("%s %s: states=%d transitions=%d nontrivial=%d depth=%d exhaustive=%v violations=%d known=%d wall=%.1fs\n",
 		id, *tier, merged.States, merged.Transitions+extra.Evaluations, merged.NonTrivial+extra.Distinct, merged.DepthDone, merged.Exhaustive, violations, len(knownMet), time.Since(t0).Seconds())
-	if vacuous != "" {
-		fmt.Println("HARNESS ERROR:", vacuous)
-		return 2
-	}
 	if harnessErr2 {
 		fmt.Println("HARNESS ERROR: a reported finding did not reproduce on replay (see stderr); no verdict")
 		return 2
 	}
 	if violations > 0 {
+		// reproduced violations stand even if some operation kind never succeeded (that is often their consequence)
+		if vacuous != "" {
+			fmt.Println("note:", vacuous)
+		}
 		return 1
+	}
+	if vacuous != "" {
+		fmt.Println("HARNESS ERROR:", vacuous)
+		return 2
 	}
 	return 0
 }
